@@ -5,6 +5,7 @@ import (
 	"crypto/ecdsa"
 	"crypto/elliptic"
 	"crypto/rand"
+	"crypto/sha256"
 	"crypto/tls"
 	"crypto/x509"
 	"crypto/x509/pkix"
@@ -162,7 +163,12 @@ func c19Creds() ([]c19Cred, error) {
 		c.Certificate = append(append([][]byte{}, base.Certificate...), raw)
 		return []tls.Certificate{c}
 	}
-	return []c19Cred{
+	var forged []c19Cred
+	for _, guess := range c19TicketKeyGuesses {
+		forged = append(forged, c19Cred{Name: "a session ticket minted by the caller's own endpoint under a guessable ticket key (" + guess + ") for a session with a certificate from another authority CN=client-test01",
+			Dial: c19ForgedTicketDial(foreign, foreignCA, foreignKey, guess)})
+	}
+	return append(forged, []c19Cred{
 		{Name: "valid client-test02 followed by an unverified non-CA certificate CN=client-test01", Valid: true, CN: "client-test02", Dial: tlsDial(trailing("client-test01", false))},
 		{Name: "valid client-test02 followed by an unverified CA-flagged certificate CN=client-test01", Valid: true, CN: "client-test02", Dial: tlsDial(trailing("client-test01", true))},
 		{Name: "valid client-test02 followed by an unverified certificate CN=signer-test02", Valid: true, CN: "client-test02", Dial: tlsDial(trailing("signer-test02", false))},
@@ -177,7 +183,84 @@ func c19Creds() ([]c19Cred, error) {
 		{Name: "valid client-test02", Valid: true, CN: "client-test02", Dial: tlsDial(valid(resources.ClientTest02Crt, resources.ClientTest02Key))},
 		{Name: "valid client-test03", Valid: true, CN: "client-test03", Dial: tlsDial(valid(resources.ClientTest03Crt, resources.ClientTest03Key))},
 		{Name: "valid signer-test02 (a peer)", Valid: true, CN: "signer-test02", IsPeer: true, Dial: tlsDial(valid(resources.SignerTest02Crt, resources.SignerTest02Key))},
-	}, nil
+	}...), nil
+}
+
+// c19TicketKeyGuesses: session-ticket keys anybody can compute. A server whose ticket key is one of them accepts tickets
+// that it never issued, and a resumed session carries whatever client certificate the ticket says.
+var c19TicketKeyGuesses = []string{"all zero", "sha256 of the server's certificate", "sha256 of the authority's certificate", "sha256 of the server's name", "sha256 of the server's public key"}
+
+// c19ForgedTicketDial: the caller looks at the certificate the server shows to anybody, runs a TLS endpoint of its own
+// whose session-ticket key is the guess, obtains from it a ticket for a session in which it presented the impostor
+// certificate, and offers that ticket to the server. (If the ticket is not accepted the handshake falls back to a full one
+// with the impostor certificate.)
+func c19ForgedTicketDial(impostor tls.Certificate, otherCA *x509.Certificate, otherKey *ecdsa.PrivateKey, guess string) func(string, int) (*grpc.ClientConn, error) {
+	return func(addr string, localPort int) (*grpc.ClientConn, error) {
+		var leaf *x509.Certificate
+		probe, err := tls.Dial("tcp", addr, &tls.Config{InsecureSkipVerify: true, MinVersion: tls.VersionTLS13, VerifyConnection: func(cs tls.ConnectionState) error {
+			if len(cs.PeerCertificates) > 0 {
+				leaf = cs.PeerCertificates[0]
+			}
+			return nil
+		}})
+		if err == nil {
+			probe.Close()
+		}
+		if leaf == nil {
+			return nil, fmt.Errorf("cannot see the server's certificate: %v", err)
+		}
+		var key [32]byte
+		switch guess {
+		case "all zero":
+		case "sha256 of the server's certificate":
+			key = sha256.Sum256(leaf.Raw)
+		case "sha256 of the authority's certificate":
+			if b, _ := pem.Decode(resources.CACrt); b != nil {
+				key = sha256.Sum256(b.Bytes)
+			}
+		case "sha256 of the server's name":
+			key = sha256.Sum256([]byte("signer-test01"))
+		case "sha256 of the server's public key":
+			key = sha256.Sum256(leaf.RawSubjectPublicKeyInfo)
+		}
+		ownCert, _, _, err := mintCert("signer-test01", otherCA, otherKey)
+		if err != nil {
+			return nil, err
+		}
+		// The endpoint verifies the impostor against the caller's own authority: a ticket for a session without verified
+		// chains would not be resumed by a server that verifies client certificates.
+		ownPool := x509.NewCertPool()
+		ownPool.AddCert(otherCA)
+		own := &tls.Config{Certificates: []tls.Certificate{ownCert}, ClientAuth: tls.RequireAndVerifyClientCert, ClientCAs: ownPool, MinVersion: tls.VersionTLS13, NextProtos: []string{"h2"}}
+		own.SetSessionTicketKeys([][32]byte{key})
+		l, err := tls.Listen("tcp", "127.0.0.1:0", own)
+		if err != nil {
+			return nil, err
+		}
+		defer l.Close()
+		go func() {
+			c, err := l.Accept()
+			if err != nil {
+				return
+			}
+			defer c.Close()
+			if c.(*tls.Conn).Handshake() == nil {
+				_, _ = c.Write([]byte{0}) // something to read, so that the other side processes the ticket
+			}
+		}()
+		cache := tls.NewLRUClientSessionCache(4)
+		cfg := &tls.Config{ServerName: "signer-test01", InsecureSkipVerify: true, Certificates: []tls.Certificate{impostor}, ClientSessionCache: cache, MinVersion: tls.VersionTLS13, NextProtos: []string{"h2"}}
+		oc, err := tls.Dial("tcp", l.Addr().String(), cfg)
+		if err != nil {
+			return nil, fmt.Errorf("own endpoint: %w", err)
+		}
+		_, _ = oc.Read(make([]byte, 1))
+		oc.Close()
+		if _, ok := cache.Get("signer-test01"); !ok {
+			return nil, fmt.Errorf("the caller's own endpoint issued no session ticket")
+		}
+		return grpc.NewClient("passthrough:///"+addr, grpc.WithTransportCredentials(credentials.NewTLS(cfg)), c19Dialer(localPort))
+	}
 }
 
 // c19Mint issues a certificate; parent == nil makes it self-signed.
